@@ -76,6 +76,8 @@ pub struct SOut {
     pub calls: Vec<Tri>,
     pub panic: Option<String>,
     pub over_budget: bool,
+    /// which of flavour::OPT_ORDERS the builder options were applied in
+    pub option_order: u8,
     /// MethSpec::Relax: node values after the search
     pub final_prio: Option<Vec<i32>>,
     /// MethSpec::FilterNested: the nested search contradicted the model's reachability
@@ -172,7 +174,16 @@ pub fn exec<F: Flavour>(nodes: &[F::Node], root: Key, cell: &Cell, meth: &MethSp
         }
     }
     let nested_wrong: RefCell<Option<String>> = RefCell::new(None);
+    // builder-option order: a pure function of the case, so that a replay uses the same one
+    let oo = {
+        use std::hash::{Hash, Hasher};
+        let mut h = std::collections::hash_map::DefaultHasher::new();
+        (nodes.len(), root, cell, meth.kind()).hash(&mut h);
+        (h.finish() % OPT_ORDERS.len() as u64) as u8
+    };
+    out.option_order = oo;
     let r = catch_unwind(AssertUnwindSafe(|| {
+        set_opt_order(oo);
         let mut rl = |e: &F::Edge| {
             {
                 let mut c = calls.borrow_mut();
@@ -271,6 +282,7 @@ pub fn exec<F: Flavour>(nodes: &[F::Node], root: Key, cell: &Cell, meth: &MethSp
         }
         o
     }));
+    set_opt_order(0);
     match r {
         Ok(o) => out = o,
         Err(e) => {
@@ -283,6 +295,7 @@ pub fn exec<F: Flavour>(nodes: &[F::Node], root: Key, cell: &Cell, meth: &MethSp
         }
     }
     out.calls = calls.into_inner();
+    out.option_order = oo;
     out.nested_wrong = nested_wrong.into_inner();
     if relax {
         out.final_prio = Some(nodes.iter().map(|n| F::prio(n)).collect());
